@@ -232,5 +232,5 @@ static void one_case(vh::Ctx & c, uint64_t idx)
 
 int main(int argc, char ** argv)
 {
-  return vh::run(argc, argv, "C06", {4000, 400000}, one_case);
+  return vh::run(argc, argv, "C06", {12000, 400000}, one_case);
 }
